@@ -22,18 +22,28 @@
     orthonormality is needed for the identities; it only matters for reading [area2] as the true area):
     [ears_area_identity], [ears_winding_identity], [ears_winding_index], the reduction [ears_tiling_count] and its
     consequences [ears_tiling_outside], [ears_tiling_no_overlap], [ears_tiling_cover], [ears_area_sum];
-    [negative_ear_breaks_count] shows that the orientation hypothesis cannot be dropped.
+    [negative_ear_breaks_count] shows that the reduction needs the orientation of the ears (pure geometry).
     [run_identities_general]: for EVERY successful run the two identities hold with one explicit defect term per recorded
     sanitize call (area, resp. winding number, of the loop before minus after).
 
+    ** The orientation of the ears is PROVED (since fix 4bb2ed8 of the crate)
+    The ear test of [from_polygon] now also requires the corner to be convex for the polygon's normal ([ear_convex])
+    and the triangle to contain no other vertex of the loop ([ear_blocked]).  [from_polygon_ears_checked]: in every
+    successful run, on every number instance, every clipped ear -- every triangle of the mesh -- is non-collinear, its
+    chord was a diagonal of the loop at that moment, [ear_convex] holds and [ear_blocked] is false for the loop at that
+    moment ([clip_runP (ear_ok P)]).  Over the reals, when the polygon's normal is a positive multiple of the frame
+    normal e1 x e2 ([frame_normal]), [ear_convex] IS 0 < orient of the projected ear ([ear_convex_orient],
+    [ears_positive]; no planarity hypothesis); hence [ears_tiling_count_proved], [ears_tile_exactly_proved],
+    [ears_area_sum_proved] without any orientation hypothesis.  [ear_blocked_false], [tri_test_point_outside]: what
+    [ear_blocked] = false says over the reals.  (On the pinned tree before the fix the implication "is_diagonal =>
+    positively oriented ear" was false: a reversed ear was clipped at the bridge vertex of a merged hole; the
+    witness [w1_poly] of Proofs/Mesh_witness.v is now the second non-vacuity example, section 5.)
+
     ** NOT proved (hypotheses of the theorems, see Properties/C01_tiling.v)
-    - that [loop_is_diagonal] implies a positively oriented ear: FALSE in general ([C01_orientation_refuted]: at the
-      bridge vertex of a merged hole a reversed ear is clipped); the orientation of every returned triangle is a
-      HYPOTHESIS of the reduction (it is checked on every run by the exact-rational oracle);
     - the Jordan property of the input (winding number of the merged outline in {0, 1} off the outline) is a
       hypothesis on the input polygon;
     - runs in which a periodic [sanitize] drops a vertex are excluded from the tiling statement (the hypothesis on the
-      trace); there the number of triangles is smaller ([C01_ntriangles_eq_refuted]) and the dropped vertex is only
+      trace); there the number of triangles is smaller ([ex3_sanitize_changes], section 5) and the dropped vertex is only
       collinear up to the code's tolerance (finding C01:area-sum:collinear-tolerance).  For them only the general
       identities with the defect terms are proved; that the defect terms are small / vanish is NOT proved;
     - floating-point evaluation of the geometric predicates (part B is about the exact tier [K = R]; part A holds
@@ -126,6 +136,31 @@ Section Ears2.
     intros Hn E0 E1 E2 H. destruct (anchor_split L a v0 v1 v2 Hn E0 E1 E2) as (pre & post & HL & HR & <- & <-).
     rewrite HR in H. rewrite HL. apply cr_ear. exact H.
   Qed.
+  (** the same, every ear step carrying a property [ok chain ear] of the chain at that moment and of the ear *)
+  Inductive clip_runP (ok : list A -> T3 -> Prop) : list A -> list T3 -> list (list A * list A) -> Prop :=
+  | crp_two : forall a b : A, clip_runP ok [a; b] [] []
+  | crp_ear : forall (pre post : list A) (v : A) (Ts : list T3) (S : list (list A * list A)),
+      ok (pre ++ v :: post) (last (post ++ pre) v, v, hd v (post ++ pre)) ->
+      clip_runP ok (pre ++ post) Ts S ->
+      clip_runP ok (pre ++ v :: post) ((last (post ++ pre) v, v, hd v (post ++ pre)) :: Ts) S
+  | crp_san : forall (l l' : list A) (Ts : list T3) (S : list (list A * list A)),
+      clip_runP ok l' Ts S -> clip_runP ok l Ts ((l, l') :: S).
+  Lemma clip_runP_forget (ok : list A -> T3 -> Prop) (L : list A) (Ts : list T3) (S : list (list A * list A)) :
+    clip_runP ok L Ts S -> clip_run L Ts S.
+  Proof. intros H; induction H; [apply cr_two | apply cr_ear; assumption | apply cr_san; assumption]. Qed.
+  Lemma clip_runP_Forall (ok : list A -> T3 -> Prop) (Q : T3 -> Prop) (L : list A) (Ts : list T3) (S : list (list A * list A)) :
+    (forall l e, ok l e -> Q e) -> clip_runP ok L Ts S -> Forall Q Ts.
+  Proof. intros HQ H; induction H; [constructor | constructor; [eapply HQ; eassumption | assumption] | assumption]. Qed.
+  Lemma clip_runP_anchor (ok : list A -> T3 -> Prop) (L : list A) (a : nat) (v0 v1 v2 : A) (Ts : list T3) (S : list (list A * list A)) :
+    length L <> 0 ->
+    nth_error L (a mod length L) = Some v0 -> nth_error L ((a + 1) mod length L) = Some v1 ->
+    nth_error L ((a + 2) mod length L) = Some v2 ->
+    ok L (v0, v1, v2) ->
+    clip_runP ok (Cyclic.remove_at ((a + 1) mod length L) L) Ts S -> clip_runP ok L ((v0, v1, v2) :: Ts) S.
+  Proof.
+    intros Hn E0 E1 E2 Hok H. destruct (anchor_split L a v0 v1 v2 Hn E0 E1 E2) as (pre & post & HL & HR & <- & <-).
+    rewrite HR in H. rewrite HL in *. apply crp_ear; assumption.
+  Qed.
   (** when no replacement changed the chain, the run is an ear decomposition *)
   Lemma clip_run_unchanged (L : list A) (Ts : list T3) (S : list (list A * list A)) :
     clip_run L Ts S -> Forall (fun p => fst p = snd p) S -> ear_decomp2 L Ts.
@@ -178,6 +213,7 @@ Section Ears2.
 End Ears2.
 Arguments ear_decomp2 {A}.
 Arguments clip_run {A}.
+Arguments clip_runP {A}.
 Arguments trot {A}.
 
 (** image under a map of the vertices *)
@@ -275,7 +311,8 @@ Section Trace.
       let potential_diag := seg_new v0 v2 in
       do is_line <- is_collinear v0 v1 v2;
       do is_diagonal <- loop_is_diagonal the_loop potential_diag;
-      if negb is_line && is_diagonal then
+      do is_ear <- ear_test P the_loop v0 v1 v2 is_line is_diagonal;
+      if is_ear then
         let '(t1, r) := mesh_push v0 v1 v2 last_added t in
         do _ <- r;
         let c (s : Seg K) (e : Edge) (m : Mesh) : Mesh * res unit :=
@@ -311,7 +348,8 @@ Section Trace.
     destruct (loop_index L1 (Nat.modulo (anchor + 2) (llen L1))) as [v2| |]; cbn [rbind rmap]; try reflexivity.
     destruct (is_collinear v0 v1 v2) as [is_line| |]; cbn [rbind rmap]; try reflexivity.
     destruct (loop_is_diagonal L1 (seg_new v0 v2)) as [is_diag| |]; cbn [rbind rmap]; try reflexivity.
-    destruct (negb is_line && is_diag).
+    destruct (ear_test P L1 v0 v1 v2 is_line is_diag) as [is_ear| |]; cbn [rbind rmap]; try reflexivity.
+    destruct is_ear.
     - destruct (mesh_push v0 v1 v2 (n_triangles t) t) as [t1 [n1| |]]; cbn [rbind rmap]; try reflexivity.
       destruct (if poly_contains_segment P (seg_new v0 v1) then mupd 95%N (n_triangles t) (tp_constrain Ab) t1 else (t1, Ok tt)) as [t2 [[]| |]];
         cbn [rbind rmap]; try reflexivity.
@@ -354,21 +392,55 @@ Section Trace.
   Lemma loop_index_nth (L : Loop K) (i : nat) (v : V) : loop_index L i = Ok v -> nth_error (verts L) i = Some v.
   Proof. unfold loop_index. destruct (nth_error (verts L) i); [|discriminate]. intros H; inversion H; reflexivity. Qed.
 
+  (** what the code has checked of an ear (v0, v1, v2) clipped off the loop with vertex list l (since fix 4bb2ed8):
+      not collinear, the chord is a diagonal of the loop, the corner is convex for the polygon's normal, the triangle
+      can be built and no other vertex of the loop lies in it *)
+  Definition ear_ok (P : Poly K) (l : list V) (e : V * V * V) : Prop :=
+    let '(v0, v1, v2) := e in
+    is_collinear v0 v1 v2 = Ok false /\
+    (exists Lp : Loop K, verts Lp = l /\ loop_is_diagonal Lp (seg_new v0 v2) = Ok true) /\
+    ear_convex P v0 v1 v2 = true /\
+    (exists ear : Tri K, tri_new v0 v1 v2 = Ok ear /\ ear_blocked ear v0 v1 v2 l = false).
+  Lemma ear_test_true (P : Poly K) (L : Loop K) (v0 v1 v2 : V) (is_line is_diag : bool) :
+    ear_test P L v0 v1 v2 is_line is_diag = Ok true ->
+    is_line = false /\ is_diag = true /\ ear_convex P v0 v1 v2 = true /\
+    exists ear : Tri K, tri_new v0 v1 v2 = Ok ear /\ ear_blocked ear v0 v1 v2 (verts L) = false.
+  Proof.
+    unfold ear_test. destruct is_line, is_diag; cbn [negb andb]; try discriminate.
+    destruct (ear_convex P v0 v1 v2); cbn [negb]; [|discriminate].
+    destruct (tri_new v0 v1 v2) as [ear| |]; cbn [rbind]; try discriminate.
+    destruct (ear_blocked ear v0 v1 v2 (verts L)) eqn:Eb; cbn [negb]; [discriminate|]. intros _.
+    repeat split. exists ear. split; [reflexivity | exact Eb].
+  Qed.
+
+  (** [ear_blocked] = false: every vertex of the loop is one of the three corners (for Point3D::compare) or is
+      classified Outside by the triangle's point test *)
+  Lemma ear_blocked_false (ear : Tri K) (v0 v1 v2 : V) (l : list V) :
+    ear_blocked ear v0 v1 v2 l = false <->
+    forall p, In p l -> (vcompare p v0 || vcompare p v1 || vcompare p v2) = true \/ tri_test_point ear p = Outside.
+  Proof.
+    induction l as [|x l IH]; cbn [ear_blocked]; [split; [intros _ p [] | reflexivity]|].
+    destruct (vcompare x v0 || vcompare x v1 || vcompare x v2) eqn:Ec.
+    - rewrite IH. split; [intros H p [<-|Hp]; [left; exact Ec | apply H; exact Hp] | intros H p Hp; apply H; right; exact Hp].
+    - destruct (tri_test_point ear x) eqn:Et; try (split; [discriminate | intros H; destruct (H x (or_introl eq_refl)) as [H'|H']; congruence]).
+      rewrite IH. split; [intros H p [<-|Hp]; [right; exact Et | apply H; exact Hp] | intros H p Hp; apply H; right; exact Hp].
+  Qed.
+
   (** the run, whatever [sanitize] does: ear steps and recorded replacements; the mesh receives exactly the ears.
       (The pushes EXTEND the triangle list: [push] is called with last_added = n_triangles, so [get_first_invalid]
       starts beyond the last slot and finds nothing, whatever the validity flags -- [push_at_end] of Proofs/Mesh_fp.v.) *)
   Lemma fp_loop_tr_run (P : Poly K) : forall (fuel count anchor : nat) (L : Loop K) (t M : Mesh) (tr : Trace),
     fp_loop_tr P fuel count anchor L t = Ok (M, tr) ->
-    clip_run (verts L) (fst tr) (snd tr) /\ map tri3 (tris M) = map tri3 (tris t) ++ fst tr.
+    clip_runP (ear_ok P) (verts L) (fst tr) (snd tr) /\ map tri3 (tris M) = map tri3 (tris t) ++ fst tr.
   Proof.
     induction fuel as [|fuel IH]; intros count anchor L t M tr H; cbn [fp_loop_tr] in H; [discriminate|].
     (* the sanitize step is recorded *)
     assert (Hsan : forall (L1 : Loop K) (tr' : Trace),
                (if Nat.eqb (Nat.modulo (S count) 10) 0 then loop_sanitize L else Ok L) = Ok L1 ->
                tr = tr_san (Nat.eqb (Nat.modulo (S count) 10) 0) (verts L, verts L1) tr' ->
-               fst tr = fst tr' /\ (clip_run (verts L1) (fst tr') (snd tr') -> clip_run (verts L) (fst tr) (snd tr))).
+               fst tr = fst tr' /\ (clip_runP (ear_ok P) (verts L1) (fst tr') (snd tr') -> clip_runP (ear_ok P) (verts L) (fst tr) (snd tr))).
     { intros L1 tr' E1 Et. unfold tr_san in Et. destruct (Nat.eqb (Nat.modulo (S count) 10) 0).
-      - subst tr. cbn [fst snd]. split; [reflexivity|]. apply cr_san.
+      - subst tr. cbn [fst snd]. split; [reflexivity|]. apply crp_san.
       - inversion E1; subst. split; [reflexivity | exact (fun x => x)]. }
     destruct (if Nat.eqb (Nat.modulo (S count) 10) 0 then loop_sanitize L else Ok L) as [L1| |] eqn:EL1; cbn [rbind] in H; try discriminate.
     specialize (Hsan L1).
@@ -376,15 +448,16 @@ Section Trace.
     { destruct (mark_neighbourhouds t) as [t' r] eqn:Em. destruct r as [[]| |]; cbn [rbind] in H; try discriminate.
       injection H as EM Et; subst t'. destruct (Hsan ([], []) eq_refl (eq_sym Et)) as (Ef & Hc).
       split.
-      - apply Hc. cbn [fst snd]. apply Nat.eqb_eq in E2. unfold llen in E2. destruct (verts L1) as [|a [|b [|c l]]]; try discriminate. apply cr_two.
+      - apply Hc. cbn [fst snd]. apply Nat.eqb_eq in E2. unfold llen in E2. destruct (verts L1) as [|a [|b [|c l]]]; try discriminate. apply crp_two.
       - rewrite Ef. cbn [fst]. rewrite app_nil_r. apply Rtri_tri3. eapply rtri_neighbourhouds. exact Em. }
     destruct (Nat.eqb (llen L1) 0) eqn:E0; [discriminate|]. apply Nat.eqb_neq in E0.
     destruct (loop_index L1 (Nat.modulo anchor (llen L1))) as [v0| |] eqn:Ev0; cbn [rbind] in H; try discriminate.
     destruct (loop_index L1 (Nat.modulo (anchor + 1) (llen L1))) as [v1| |] eqn:Ev1; cbn [rbind] in H; try discriminate.
     destruct (loop_index L1 (Nat.modulo (anchor + 2) (llen L1))) as [v2| |] eqn:Ev2; cbn [rbind] in H; try discriminate.
-    destruct (is_collinear v0 v1 v2) as [is_line| |]; cbn [rbind] in H; try discriminate.
-    destruct (loop_is_diagonal L1 (seg_new v0 v2)) as [is_diag| |]; cbn [rbind] in H; try discriminate.
-    destruct (negb is_line && is_diag).
+    destruct (is_collinear v0 v1 v2) as [is_line| |] eqn:Eline; cbn [rbind] in H; try discriminate.
+    destruct (loop_is_diagonal L1 (seg_new v0 v2)) as [is_diag| |] eqn:Ediag; cbn [rbind] in H; try discriminate.
+    destruct (ear_test P L1 v0 v1 v2 is_line is_diag) as [is_ear| |] eqn:Etest; cbn [rbind] in H; try discriminate.
+    destruct is_ear.
     - destruct (mesh_push v0 v1 v2 (n_triangles t) t) as [t1 r] eqn:Ep. destruct r as [n1| |]; cbn [rbind] in H; try discriminate.
       unfold n_triangles in Ep. apply push_at_end in Ep. destruct Ep as (tp & Etp & Ea & Eb & Ec).
       assert (Hc : forall (sg : Seg K) (e : Edge) (m m' : Mesh) (r : res unit),
@@ -404,7 +477,9 @@ Section Trace.
       destruct (IH _ _ _ _ _ _ Erec) as (D & EM). split.
       + apply Hcr. unfold loop_remove in Er. destruct (Nat.ltb _ _); [|discriminate]. inversion Er; subst L2. cbn [verts set_verts] in D.
         rewrite remove_nth_remove_at in D. unfold llen in *.
-        apply (clip_run_anchor V (verts L1) anchor); [exact E0 | apply loop_index_nth; exact Ev0 | apply loop_index_nth; exact Ev1 | apply loop_index_nth; exact Ev2 | exact D].
+        apply (clip_runP_anchor V (ear_ok P) (verts L1) anchor); [exact E0 | apply loop_index_nth; exact Ev0 | apply loop_index_nth; exact Ev1 | apply loop_index_nth; exact Ev2 | | exact D].
+        apply ear_test_true in Etest. destruct Etest as (-> & -> & Hcv & Hbl). unfold ear_ok.
+        split; [exact Eline|]. split; [exists L1; split; [reflexivity | exact Ediag]|]. split; assumption.
       + rewrite Ef, EM. rewrite (Rtri_tri3 _ _ Ec4), (Rtri_tri3 _ _ Ec3), (Rtri_tri3 _ _ Ec2), Etp, map_app, <- app_assoc. cbn [map app].
         unfold tri3 at 2. rewrite Ea, Eb, Ec. reflexivity.
     - destruct (fp_loop_tr P fuel (S count) (S anchor) L1 t) as [[M' tr']| |] eqn:Erec; cbn [rbind fst snd] in H; try discriminate.
@@ -416,19 +491,46 @@ Section Trace.
     ear_decomp2 (verts L) (fst tr) /\ map tri3 (tris M) = map tri3 (tris t) ++ fst tr.
   Proof.
     intros fuel count anchor L t M tr H Hs. destruct (fp_loop_tr_run P _ _ _ _ _ _ _ H) as (D & EM). split; [|exact EM].
-    eapply clip_run_unchanged; [exact D | exact Hs].
+    eapply clip_run_unchanged; [eapply clip_runP_forget; exact D | exact Hs].
   Qed.
 
   (** ** the general form (any behaviour of [sanitize]): ear steps and recorded replacements of the loop *)
-  Theorem from_polygon_clip_run (P : Poly K) (M : Mesh) (tr : Trace) :
+  Theorem from_polygon_clip_runP (P : Poly K) (M : Mesh) (tr : Trace) :
     from_polygon_tr P = Ok (M, tr) ->
     exists Lm : Loop K, poly_get_closed_loop P = Ok Lm /\ snd (loop_close Lm) = Ok tt /\
-      clip_run (verts (fst (loop_close Lm))) (fst tr) (snd tr) /\ map tri3 (tris M) = fst tr.
+      clip_runP (ear_ok P) (verts (fst (loop_close Lm))) (fst tr) (snd tr) /\ map tri3 (tris M) = fst tr.
   Proof.
     unfold from_polygon_tr. destruct (poly_get_closed_loop P) as [Lm| |]; cbn [rbind]; try discriminate.
     destruct (loop_close Lm) as [L r] eqn:Ec. destruct r as [[]| |]; cbn [rbind]; try discriminate.
     destruct (Nat.ltb (llen L) 2); [discriminate|]. intros H. exists Lm. split; [reflexivity|]. rewrite Ec. cbn [fst snd]. split; [reflexivity|].
     destruct (fp_loop_tr_run P _ _ _ _ _ _ _ H) as (D & EM). cbn [mesh_new tris map app] in EM. split; assumption.
+  Qed.
+  Theorem from_polygon_clip_run (P : Poly K) (M : Mesh) (tr : Trace) :
+    from_polygon_tr P = Ok (M, tr) ->
+    exists Lm : Loop K, poly_get_closed_loop P = Ok Lm /\ snd (loop_close Lm) = Ok tt /\
+      clip_run (verts (fst (loop_close Lm))) (fst tr) (snd tr) /\ map tri3 (tris M) = fst tr.
+  Proof.
+    intros H. destruct (from_polygon_clip_runP P M tr H) as (Lm & H1 & H2 & D & EM). exists Lm. repeat split; try assumption.
+    eapply clip_runP_forget. exact D.
+  Qed.
+  (** ** every clipped ear passed the ear test (fix 4bb2ed8): in any successful run, every ear of the trace -- every triangle
+      of the mesh -- is non-collinear, its chord was a diagonal of the loop at that moment, its corner is convex for the
+      polygon's normal, and no other vertex of the loop at that moment lies in it *)
+  Theorem from_polygon_ears_checked (P : Poly K) (M : Mesh) (tr : Trace) :
+    from_polygon_tr P = Ok (M, tr) -> Forall (fun e => exists l : list V, ear_ok P l e) (fst tr).
+  Proof.
+    intros H. destruct (from_polygon_clip_runP P M tr H) as (Lm & _ & _ & D & _).
+    eapply clip_runP_Forall; [|exact D]. intros l e Hok. exists l. exact Hok.
+  Qed.
+  Theorem from_polygon_ears_convex (P : Poly K) (M : Mesh) :
+    from_polygon P = Ok M ->
+    Forall (fun t => ear_convex P (ta (tp_tri t)) (tb (tp_tri t)) (tc (tp_tri t)) = true) (tris M).
+  Proof.
+    intros H. apply from_polygon_has_trace in H. destruct H as [tr H].
+    destruct (from_polygon_clip_runP P M tr H) as (Lm & _ & _ & D & EM).
+    assert (F : Forall (fun e : V * V * V => ear_convex P (fst (fst e)) (snd (fst e)) (snd e) = true) (fst tr)).
+    { eapply clip_runP_Forall; [|exact D]. intros l [[v0 v1] v2] (_ & _ & Hc & _). exact Hc. }
+    rewrite <- EM in F. rewrite Forall_map in F. exact F.
   Qed.
 
   (** ** Theorem A: a successful, sanitize-stable [from_polygon] is an ear decomposition of the closed merged outline *)
@@ -504,7 +606,8 @@ Section Trace.
     destruct (loop_index L1 (Nat.modulo (anchor + 2) (llen L1))) as [v2| |]; cbn [rbind] in H; try discriminate.
     destruct (is_collinear v0 v1 v2) as [is_line| |]; cbn [rbind] in H; try discriminate.
     destruct (loop_is_diagonal L1 (seg_new v0 v2)) as [is_diag| |]; cbn [rbind] in H; try discriminate.
-    destruct (negb is_line && is_diag); [|eapply IH; eassumption].
+    destruct (ear_test P L1 v0 v1 v2 is_line is_diag) as [is_ear| |]; cbn [rbind] in H; try discriminate.
+    destruct is_ear; [|eapply IH; eassumption].
     destruct (mesh_push v0 v1 v2 (n_triangles t) t) as [t1 r] eqn:Ep. destruct r as [n1| |]; cbn [rbind] in H; try discriminate.
     unfold n_triangles in Ep. apply push_at_end_normal in Ep. destruct Ep as (tp & Etp & Hn).
     assert (Hc : forall (sg : Seg K) (e : Edge) (m m' : Mesh) (r : res unit),
@@ -696,7 +799,7 @@ Proof.
   - rewrite <- Winding.orient_rot. repeat split; assumption.
 Qed.
 
-(** the orientation hypothesis cannot be dropped: the dart A B C D with the reflex vertex B, clipped at B first.  The ear
+(** the reduction needs the orientation of the ears (which the code now checks): the dart A B C D with the reflex vertex B, clipped at B first.  The ear
     (A, B, C) is clockwise; the point q lies OUTSIDE the dart (winding number 0) and is covered by BOTH ears. *)
 Ltac rlt_eval :=
   repeat match goal with
@@ -916,6 +1019,53 @@ Section Frame.
     intros Hok Hn a b c Hin. apply proj_tris_In in Hin. destruct Hin as (t & Hin & -> & -> & ->).
     apply normal_side_orient; [|apply Hn; exact Hin]. pose proof (from_polygon_normals P M Hok) as F. rewrite Forall_forall in F. apply F. exact Hin.
   Qed.
+  (** ** since fix 4bb2ed8 the orientation hypothesis is PROVED: every clipped ear passed [ear_convex], i.e.
+      ((v1 - v0) x (v2 - v1)) . pnormal P > 0; when the polygon's normal is a positive multiple of the frame normal
+      e1 x e2 this is 0 < orient of the projected ear ([orient_plane2]).  No planarity of the outline is needed. *)
+  Definition frame_normal (P : Poly R) : Prop := exists k : R, 0 < k /\ pnormal P = vscale nrm k.
+  Lemma frame_normal_eq (P : Poly R) : pnormal P = nrm -> frame_normal P.
+  Proof. intros E. exists 1. split; [lra|]. rewrite E. apply v3_eq; vunf; rnum; ring. Qed.
+  Lemma ear_convex_orient (P : Poly R) (a b c : V) :
+    frame_normal P -> ear_convex P a b c = true -> 0 < Winding.orient (pr a) (pr b) (pr c).
+  Proof.
+    intros (k & Hk & En) H. unfold ear_convex in H. rnum. apply Rltb_true in H. rewrite En in H. rewrite orient_plane2.
+    assert (E : vdot (vcross (vsub b a) (vsub c b)) (vscale nrm k) = k * vdot nrm (vcross (vsub b a) (vsub c a))) by (vunf; rnum; ring).
+    rewrite E in H. nra.
+  Qed.
+  Theorem ears_positive (P : Poly R) (M : Mesh R) :
+    from_polygon P = Ok M -> frame_normal P -> forall a b c, In (a, b, c) (proj_tris M) -> 0 < Winding.orient a b c.
+  Proof.
+    intros Hok Hn a b c Hin. apply proj_tris_In in Hin. destruct Hin as (t & Hin & -> & -> & ->).
+    apply (ear_convex_orient P); [exact Hn|]. pose proof (from_polygon_ears_convex P M Hok) as F. rewrite Forall_forall in F. apply F. exact Hin.
+  Qed.
+
+  Section RunProved.
+    Variables (P : Poly R) (M : Mesh R) (L : Loop R).
+    Hypothesis Hrun : stable_run P M.
+    Hypothesis Hout : outline_of P L.
+    Hypothesis Hn : frame_normal P.
+    Notation L2 := (proj_outline L).
+    Notation Ts := (proj_tris M).
+    Lemma run_pos : forall a b c, In (a, b, c) Ts -> 0 < Winding.orient a b c.
+    Proof. exact (ears_positive P M (stable_run_ok P M Hrun) Hn). Qed.
+    Theorem ears_tiling_count_proved (d q : PP) : Winding.generic d q L2 ->
+      (forall a b c, In (a, b, c) Ts -> Winding.off_segs a b c q) ->
+      Winding.wn d L2 q = Z.of_nat (Winding.count_inside Ts q).
+    Proof. exact (ears_tiling_count P M L Hrun Hout run_pos d q). Qed.
+    Theorem ears_tile_exactly_proved (d q : PP) : Winding.generic d q L2 ->
+      (forall a b c, In (a, b, c) Ts -> Winding.off_segs a b c q) ->
+      (0 <= Winding.wn d L2 q <= 1)%Z ->
+      (Winding.wn d L2 q = 1%Z <-> exists a b c, In (a, b, c) Ts /\ Winding.inside_tri a b c q) /\
+      Winding.count_inside Ts q = (if Z.eqb (Winding.wn d L2 q) 1 then 1 else 0)%nat /\
+      (forall (l1 l2 l3 : list T2) (a b c a' b' c' : PP), Ts = l1 ++ (a, b, c) :: l2 ++ (a', b', c') :: l3 ->
+         Winding.inside_tri a b c q -> Winding.inside_tri a' b' c' q -> False).
+    Proof. exact (ears_tile_exactly P M L Hrun Hout run_pos d q). Qed.
+    Theorem ears_area_sum_proved : Shoelace.area2 L2 = Cyclic.tsum 0 Rplus (fun a b c => Rabs (Shoelace.area2 [a; b; c])) Ts.
+    Proof. exact (ears_area_sum P M L Hrun Hout run_pos). Qed.
+    Theorem ears_area_positive_proved : (1 <= length (tris M))%nat -> 0 < Shoelace.area2 L2.
+    Proof. exact (ears_area_positive P M L Hrun Hout run_pos). Qed.
+  End RunProved.
+
   (** every triangle lies in the plane of the outline *)
   Lemma ears_in_plane (P : Poly R) (M : Mesh R) (L : Loop R) (n : V) :
     stable_run P M -> outline_of P L -> (forall v, In v (verts L) -> vdot n (vsub v o) = 0) ->
@@ -927,6 +1077,32 @@ Section Frame.
     repeat split; apply Hpl; assumption.
   Qed.
 End Frame.
+
+(** the triangle's point test over the reals: [Outside] iff one of the three barycentric coordinates the code computes
+    is below -ctiny (ctiny = 100 * EPSILON of the instance); so [ear_blocked = false] says that every other vertex of
+    the loop has a barycentric coordinate < -ctiny w.r.t. the ear (in particular lies outside the closed triangle) *)
+Definition tri_bary (t : Tri R) (p : V) : R * R * R :=
+  let e1 := vsub (tb t) (ta t) in
+  let e2 := vsub (tc t) (ta t) in
+  let pa := vsub p (ta t) in
+  let det := vdot e1 e1 * vdot e2 e2 - vdot e2 e1 * vdot e2 e1 in
+  let alpha := (vdot e2 e2 * vdot e1 pa - vdot e2 e1 * vdot e2 pa) / det in
+  let beta := (- vdot e2 e1 * vdot e1 pa + vdot e1 e1 * vdot e2 pa) / det in
+  (alpha, beta, 1 - alpha - beta).
+Lemma tri_test_point_outside (t : Tri R) (p : V) :
+  tri_test_point t p = Outside <->
+  (fst (fst (tri_bary t p)) < - ctiny \/ snd (fst (tri_bary t p)) < - ctiny \/ snd (tri_bary t p) < - ctiny).
+Proof.
+  unfold tri_test_point, tri_bary. cbn zeta. cbn [fst snd]. rnum.
+  match goal with |- context [if ?c then _ else Outside] => destruct c eqn:Ec end.
+  - apply andb_prop in Ec. destruct Ec as [Ec E3]. apply andb_prop in Ec. destruct Ec as [E1 E2].
+    apply Rleb_true in E1. apply Rleb_true in E2. apply Rleb_true in E3. split.
+    + intros H. repeat match type of H with context [if ?b then _ else _] => destruct b end; discriminate.
+    + intros [H|[H|H]]; exfalso; lra.
+  - split; [intros _|reflexivity]. apply andb_false_iff in Ec. destruct Ec as [Ec|E3].
+    + apply andb_false_iff in Ec. destruct Ec as [E1|E2]; [apply Rleb_false in E1; left; lra | apply Rleb_false in E2; right; left; lra].
+    + apply Rleb_false in E3. right; right; lra.
+Qed.
 
 (** reading the coordinates: for an ORTHONORMAL frame e1 x e2 is a unit vector and [plane2 o e1 e2] is a bijection from the
     plane through o spanned by e1, e2 onto R^2 (with inverse (x, y) |-> o + x e1 + y e2); so [area2] of the projection is
@@ -1003,9 +1179,9 @@ Ltac ins_eval :=
   match goal with
   | |- context [Winding.inside_trib ?a ?b ?c ?q] =>
     first [ replace (Winding.inside_trib a b c q) with true
-              by (symmetry; apply Winding.inside_trib_spec; unfold Winding.inside_tri, Winding.orient, ex_q; cbn [fst snd]; left; repeat split; lra)
+              by (symmetry; apply Winding.inside_trib_spec; unfold Winding.inside_tri, Winding.orient; cbn [fst snd]; left; repeat split; lra)
           | replace (Winding.inside_trib a b c q) with false
-              by (symmetry; apply Winding.inside_trib_false; unfold Winding.inside_tri, Winding.orient, ex_q; cbn [fst snd];
+              by (symmetry; apply Winding.inside_trib_false; unfold Winding.inside_tri, Winding.orient; cbn [fst snd];
                   intros [(H1 & H2 & H3)|(H1 & H2 & H3)]; lra) ]
   end.
 Lemma ex_hypotheses :
@@ -1025,9 +1201,97 @@ Proof.
   assert (Hp' : forall a b c, In (a, b, c) (map (map3 zr) ex_ears) -> 0 < Winding.orient a b c /\ Winding.off_segs a b c ex_q).
   { intros a b c Hin. destruct (Hp a b c Hin) as [H1 H2]. split; [exact H1 | apply Winding.off_lines_off_segs; exact H2]. }
   assert (C1 : Winding.count_inside (map (map3 zr) ex_ears) ex_q = 1%nat).
-  { unfold ex_ears, map3, zr. cbn [map fst snd]. rewrite !Winding.count_inside_cons. repeat ins_eval. reflexivity. }
+  { unfold ex_ears, map3, zr, ex_q. cbn [map fst snd]. rewrite !Winding.count_inside_cons. repeat ins_eval. reflexivity. }
   split; [exact D|]. split; [exact G|]. split; [exact Hp'|]. split; [|split; [exact C1|]].
   - rewrite (ed2_count _ _ D _ _ G Hp'), C1. reflexivity.
   - assert (H2 : 2 * Shoelace.area2 (map zr ex_coords) = 10); [|lra]. rewrite (ed2_area2_doubled _ _ D).
     unfold Cyclic.tsum, Winding.orient, ex_ears, map3, zr. cbn [map fold_right fst snd]. lra.
+Qed.
+
+(** ** second example, with a HOLE: the unit square with the triangular hole (0.3,0.3) (0.45,0.6) (0.6,0.3) ([w1_poly] of
+    Proofs/Mesh_witness.v; before fix 4bb2ed8 a reversed ear covered the hole).  The merged outline has 9 vertices (the
+    bridge (0,0)-(0.3,0.3) is walked twice); the run gives 7 = 9 - 2 triangles, one [sanitize] call (4 vertices, unchanged),
+    every ear passes [ear_convex].  Over the reals, in units of 1/20 (any map of the vertices carries an ear decomposition
+    along: here the float coordinates are read as the nearest multiple of 1/20): all 7 ears are counter-clockwise; a point
+    of the region is covered once, a point IN THE HOLE has winding number 0 and is covered by no triangle; area 400 - 18. *)
+Definition ex2_coords : list (Z * Z) := [(0,0);(6,6);(9,12);(12,6);(6,6);(0,0);(20,0);(20,20);(0,20)]%Z.
+Definition ex2_ears : list ((Z * Z) * (Z * Z) * (Z * Z)) :=
+  [((0,0),(6,6),(9,12)); ((12,6),(6,6),(0,0)); ((12,6),(0,0),(20,0)); ((12,6),(20,0),(20,20));
+   ((0,20),(0,0),(9,12)); ((9,12),(12,6),(20,20)); ((20,20),(0,20),(9,12))]%Z.
+Definition fz20 (f : float) : Z := fz (PrimFloat.add (PrimFloat.mul f (of_uint63 (Uint63.of_Z 20))) (PrimFloat.div (of_uint63 (Uint63.of_Z 1)) (of_uint63 (Uint63.of_Z 2)))).
+Definition fzp20 (v : V3 float) : Z * Z := (fz20 (vx v), fz20 (vy v)).
+Definition ex2_q : PP := (163 / 10, 41 / 10).
+Definition ex2_qhole : PP := (91 / 10, 83 / 10).
+
+Lemma ex2_run :
+  exists (M : Mesh float) (tr : Trace) (Lm : Loop float),
+    from_polygon_tr w1_poly = Ok (M, tr) /\ sanitize_unchanged tr /\ length (snd tr) = 1%nat /\ length (pinner w1_poly) = 1%nat /\
+    poly_get_closed_loop w1_poly = Ok Lm /\ snd (loop_close Lm) = Ok tt /\
+    map fzp20 (verts (fst (loop_close Lm))) = ex2_coords /\ map (map3 fzp20) (fst tr) = ex2_ears /\ length (tris M) = 7%nat /\
+    forallb (fun e => ear_convex w1_poly (fst (fst e)) (snd (fst e)) (snd e)) (fst tr) = true.
+Proof.
+  eexists. eexists. eexists. split; [vm_compute; reflexivity|]. split; [vm_compute; repeat constructor|]. split; [vm_compute; reflexivity|].
+  split; [vm_compute; reflexivity|]. split; [vm_compute; reflexivity|]. repeat split; vm_compute; reflexivity.
+Qed.
+Lemma ex2_ear_decomp2 : ear_decomp2 (map zr ex2_coords) (map (map3 zr) ex2_ears).
+Proof.
+  destruct ex2_run as (M & tr & Lm & H1 & Hs & _ & _ & H2 & _ & HV & HE & _).
+  destruct (from_polygon_ears w1_poly M tr H1 Hs) as (Lm' & G1 & _ & D & _). rewrite H2 in G1. injection G1 as <-.
+  apply (ear_decomp2_map fzp20) in D. rewrite HV, HE in D. apply (ear_decomp2_map zr) in D. exact D.
+Qed.
+Lemma ex2_hypotheses :
+  let L2 := map zr ex2_coords in let Ts := map (map3 zr) ex2_ears in
+  ear_decomp2 L2 Ts /\ (forall a b c, In (a, b, c) Ts -> 0 < Winding.orient a b c) /\
+  Winding.generic ex_d ex2_q L2 /\ (forall a b c, In (a, b, c) Ts -> Winding.off_segs a b c ex2_q) /\
+  Winding.wn ex_d L2 ex2_q = 1%Z /\ Winding.count_inside Ts ex2_q = 1%nat /\
+  Winding.generic ex_d ex2_qhole L2 /\ (forall a b c, In (a, b, c) Ts -> Winding.off_segs a b c ex2_qhole) /\
+  Winding.wn ex_d L2 ex2_qhole = 0%Z /\ (forall a b c, In (a, b, c) Ts -> ~ Winding.inside_tri a b c ex2_qhole) /\
+  Shoelace.area2 L2 = 382.
+Proof.
+  cbn zeta. pose proof ex2_ear_decomp2 as D.
+  assert (G : forall q : PP, snd q = 41 / 10 \/ snd q = 83 / 10 -> Winding.generic ex_d q (map zr ex2_coords)).
+  { intros q Hq v Hv. unfold ex2_coords in Hv. cbn [map] in Hv. unfold zr in Hv. cbn [fst snd] in Hv.
+    repeat (destruct Hv as [<-|Hv]; [unfold Winding.hgt, ex_d; cbn [fst snd]; destruct Hq as [-> | ->]; lra|]). destruct Hv. }
+  assert (Hp : forall a b c, In (a, b, c) (map (map3 zr) ex2_ears) ->
+               0 < Winding.orient a b c /\ Winding.off_lines a b c ex2_q /\ Winding.off_lines a b c ex2_qhole).
+  { intros a b c Hin. unfold ex2_ears in Hin. cbn [map] in Hin. unfold map3, zr in Hin. cbn [fst snd] in Hin.
+    repeat (destruct Hin as [Hin|Hin]; [injection Hin as <- <- <-; unfold Winding.off_lines, Winding.orient, ex2_q, ex2_qhole; cbn [fst snd]; repeat split; lra|]).
+    destruct Hin. }
+  assert (Hpos : forall a b c, In (a, b, c) (map (map3 zr) ex2_ears) -> 0 < Winding.orient a b c) by (intros a b c Hin; apply (Hp a b c Hin)).
+  assert (Hq : forall a b c, In (a, b, c) (map (map3 zr) ex2_ears) -> 0 < Winding.orient a b c /\ Winding.off_segs a b c ex2_q).
+  { intros a b c Hin. destruct (Hp a b c Hin) as (H1 & H2 & _). split; [exact H1 | apply Winding.off_lines_off_segs; exact H2]. }
+  assert (Hqh : forall a b c, In (a, b, c) (map (map3 zr) ex2_ears) -> 0 < Winding.orient a b c /\ Winding.off_segs a b c ex2_qhole).
+  { intros a b c Hin. destruct (Hp a b c Hin) as (H1 & _ & H2). split; [exact H1 | apply Winding.off_lines_off_segs; exact H2]. }
+  assert (C1 : Winding.count_inside (map (map3 zr) ex2_ears) ex2_q = 1%nat).
+  { unfold ex2_ears, map3, zr, ex2_q. cbn [map fst snd]. rewrite !Winding.count_inside_cons. repeat ins_eval. reflexivity. }
+  assert (C0 : Winding.count_inside (map (map3 zr) ex2_ears) ex2_qhole = 0%nat).
+  { unfold ex2_ears, map3, zr, ex2_qhole. cbn [map fst snd]. rewrite !Winding.count_inside_cons. repeat ins_eval. reflexivity. }
+  assert (G1 := G ex2_q (or_introl eq_refl)). assert (G0 := G ex2_qhole (or_intror eq_refl)).
+  split; [exact D|]. split; [exact Hpos|]. split; [exact G1|]. split; [intros a b c Hin; apply (Hq a b c Hin)|].
+  split; [rewrite (ed2_count _ _ D _ _ G1 Hq), C1; reflexivity|]. split; [exact C1|].
+  split; [exact G0|]. split; [intros a b c Hin; apply (Hqh a b c Hin)|].
+  split; [rewrite (ed2_count _ _ D _ _ G0 Hqh), C0; reflexivity|]. split; [apply count_zero_none; exact C0|].
+  assert (H2 : 2 * Shoelace.area2 (map zr ex2_coords) = 764); [|lra]. rewrite (ed2_area2_doubled _ _ D).
+  unfold Cyclic.tsum, Winding.orient, ex2_ears, map3, zr. cbn [map fold_right fst snd]. lra.
+Qed.
+
+(** ** the hypothesis [sanitize_unchanged] is not redundant: a 16-vertex comb (rectilinear, three slots) on which the 10th
+    pass's [sanitize] DROPS a vertex that has become collinear; the run succeeds with 13 = |L| - 3 triangles.  (Fix
+    4bb2ed8 changed the clipping order, so the former 8-vertex witness of Proofs/Mesh_witness.v now gives |L| - 2.) *)
+Definition ex3_coords : list (Z * Z) := [(0,0);(7,0);(7,5);(6,5);(6,1);(5,1);(5,5);(4,5);(4,1);(3,1);(3,5);(2,5);(2,1);(1,1);(1,5);(0,5)]%Z.
+Definition ex3_poly : Poly float := get dummy_poly (build_poly (map zp ex3_coords) []).
+Lemma sanitize_changed_length {K : Type} (tr : Trace (K := K)) :
+  existsb (fun p => negb (Nat.eqb (length (fst p)) (length (snd p)))) (snd tr) = true -> ~ sanitize_unchanged tr.
+Proof.
+  unfold sanitize_unchanged. intros E F. apply existsb_exists in E. destruct E as (p & Hin & Hp). rewrite Forall_forall in F.
+  rewrite (F p Hin) in Hp. rewrite Nat.eqb_refl in Hp. discriminate.
+Qed.
+Lemma ex3_sanitize_changes :
+  exists (M : Mesh float) (tr : Trace) (Lm : Loop float),
+    from_polygon_tr ex3_poly = Ok (M, tr) /\ ~ sanitize_unchanged tr /\
+    poly_get_closed_loop ex3_poly = Ok Lm /\ snd (loop_close Lm) = Ok tt /\
+    llen (fst (loop_close Lm)) = 16%nat /\ length (tris M) = 13%nat.
+Proof.
+  eexists. eexists. eexists. split; [vm_compute; reflexivity|]. split; [apply sanitize_changed_length; vm_compute; reflexivity|].
+  split; [vm_compute; reflexivity|]. repeat split; vm_compute; reflexivity.
 Qed.
